@@ -13,7 +13,7 @@ META = dict(
     note='Crash-freedom on arbitrary byte strings is fuzzing territory and is NOT claimed (DESIGN 5): only model-derived inputs. A timeout on a sentence or a nesting case (nested calls between 11 and the overflow depth would take 3^n steps) is recorded, not judged; a timeout on an alias case (after one retry alone with 6x the limit) is a failure to terminate. Parsing runs on a thread with an 8 MiB stack in a dev-profile (opt-level 1) build; the overflow depth depends on both. Known finding: stack overflow at nesting depth >= 5000 (known-findings.txt).',
     design='4 C36, 5, 7',
 )
-READY = False
+READY = True
 LEVEL = META["category"]
 
 LANGS = ("revset", "fileset", "template")
